@@ -102,7 +102,7 @@ func (b *ByteBuffer) Commit(n int) {
 // you will get the entire 1GB allocated which is maybe not what you want in a
 // resourced constrained application.
 func (b *ByteBuffer) Prefault() {
-	slice := b.data[:cap(b.data)]
+	slice := b.data[b.wi:cap(b.data)]
 	for i := range slice {
 		slice[i] = 0
 	}
